@@ -97,6 +97,8 @@ class Sym:
     def __str__(self):
         if self.b < 0 or any(c < 0 for c in self.t.values()):
             raise TrErr('negative symbolic dimension / index')
+        if not self.t:
+            return str(self.b)
         if list(self.t) == ['n']:
             # TnImpl<N>: `n`, `a * n`, `(n + b)` — the forms the hand model SmoothModel/Tn.lean uses
             a = self.t['n']
@@ -1317,6 +1319,9 @@ class FnTr:
             o = outs[0]
             v = self.env[o[0]]
             if v.written != 'all':
+                if isinstance(v.written, list):
+                    got = ', '.join(f'[{Sym.of(a)}, {Sym.of(b)})' for a, b in v.written) or 'nothing'
+                    raise self.err(f'output `{o[0]}` is not fully assigned: rows {got} of {Sym.of(v.ty[1])} are written')
                 full = self.cells(0, 0, *shape(v.ty))
                 raise self.err(f'output `{o[0]}` is not fully assigned: missing {sorted(full - v.written)[:4] if full else "?"}')
             self.result, rty = o[0], o[2]
